@@ -25,7 +25,8 @@ def meta_source(draw, nfiles, single):
     if version == 1 and not single:
         if draw(st.booleans()):
             src["order"] = list(draw(st.permutations(list(range(nfiles)))))
-        src["align"] = draw(st.booleans())
+        # True: aligned to the piece length; 2 / 4: to a multiple of it (pads longer than the room left in their piece, round 8)
+        src["align"] = draw(st.sampled_from([False, False, True, True, 2, 4]))
         src["trailing_pad"] = draw(st.booleans())
     if version == 3:
         src["trailing_pad"] = draw(st.booleans())
